@@ -606,8 +606,16 @@ func executeScript(
 	select {
 	case <-done:
 	case <-ctx.Done():
-		vm.Abort()
-		<-done
+		// Abort is ignored if it is called before Run is entered in the
+		// goroutine, repeat it until the run stops.
+		for stopped := false; !stopped; {
+			vm.Abort()
+			select {
+			case <-done:
+				stopped = true
+			case <-time.After(10 * time.Millisecond):
+			}
+		}
 		if err == nil {
 			err = ctx.Err()
 		}
